@@ -26,6 +26,8 @@ LEAN_ROOT = os.path.join(VERIF, "lean", "OFCore")
 BIN = os.path.join(LEAN_ROOT, ".lake", "build", "bin")
 REPO = os.environ.get("OFV_REPO", "/repo")
 SEARCH_SECONDS = {"quick": 240, "thorough": 1800}    # time budget of the failing-input search
+ESCALATE_SECONDS = {"quick": int(os.environ.get("OFV_ESCALATE_SECONDS", "240")), "thorough": 1200}   # extra budget when the
+                                                       # anchored source no longer reads as recorded (srcmap.py)
 ALLOWED_AXIOMS = {"propext", "Classical.choice", "Quot.sound"}
 FORBIDDEN = re.compile(r"\bsorry\b|\badmit\b|^\s*axiom\s|native_decide|bv_decide|implemented_by|\bunsafe\s|maxHeartbeats\s+0\b|reduceBool|ofReduceBool")
 NPROC = int(os.environ.get("OFV_NPROC", "16"))
@@ -430,6 +432,14 @@ def run_check(modname: str, tier: str, seed: int, replay: Optional[str] = None) 
         if p.returncode != 0:
             proof_ok = False
 
+    # 3b. does the anchored source still read as it did when the models were written?
+    from . import srcmap
+    try:
+        fp = srcmap.compare(pid, REPO)
+    except Exception as e:
+        fp = {"status": "no-baseline", "changed": [], "error": f"{type(e).__name__}: {e}"}
+    log(f"anchored source: {fp['status']}" + (" (" + ", ".join(fp["changed"][:8]) + (" ..." if len(fp["changed"]) > 8 else "") + ")" if fp["changed"] else ""))
+
     # 4. cases
     rng = random.Random(seed)
     if replay:
@@ -451,26 +461,58 @@ def run_check(modname: str, tier: str, seed: int, replay: Optional[str] = None) 
     outs = evaluate(prop, modname, cases) if drv_ok else [
         Outcome(c, io, "DRIVER-UNAVAILABLE", orc, nt) for c, (io, orc, nt) in zip(cases, run_impl(modname, cases))]
 
+    eq = prop.canon_equal or (lambda c, a, b: a == b)
+
+    def classify(os_):
+        violations, known_seen, diffs, unclaimed = [], {}, [], []
+        for o in os_:
+            in_known = None
+            if o.oracle is not None:
+                in_known = match_known(pid, o.oracle[0], known)
+                if in_known is None:
+                    violations.append(o)
+                else:
+                    known_seen.setdefault(in_known["id"], []).append(o)
+            if drv_ok and not eq(o.case, o.impl, o.model):
+                if in_known is not None and not prop.known_diffs_binding:
+                    continue           # inside an open finding only the oracle speaks (the model states the
+                                       # intended behaviour there); a model that mirrors the code stays binding
+                (diffs if (o.case.claimed or prop.unclaimed_diffs_binding) else unclaimed).append(o)
+        return violations, known_seen, diffs, unclaimed
+
+    # 4b. the anchored source changed since the models were written: explore further before concluding
+    escalation = {"rounds": 0, "extra_cases": 0}
+    if fp["status"] == "changed" and not replay and drv_ok and os.environ.get("OFV_NO_ESCALATE") != "1":
+        def quiet(os_):
+            v, _, d, _ = classify(os_)
+            return not v and not d
+        t_esc = time.time()
+        seen_lines = {o.case.line for o in outs}
+        k = 0
+        while quiet(outs) and time.time() - t_esc < ESCALATE_SECONDS[tier] and k < 12:
+            k += 1
+            more = [c for c in prop.generate(random.Random(seed + 7919 * k), tier) if c.line not in seen_lines]
+            if k == 1 and tier != "thorough" and prop.enumerate_thorough:
+                enum = [c for c in prop.enumerate_thorough() if c.line not in seen_lines]
+                if len(enum) > 40000:
+                    enum = random.Random(seed).sample(enum, 40000)
+                for c in enum:
+                    c.origin = "enum"
+                more += enum
+            if not more:
+                break
+            seen_lines.update(c.line for c in more)
+            outs += evaluate(prop, modname, more)
+            escalation["rounds"] = k
+            escalation["extra_cases"] += len(more)
+        log(f"source changed: {escalation['rounds']} further generator rounds, {escalation['extra_cases']} more cases in {time.time() - t_esc:.0f}s")
+
     crashes = [o for o in outs if o.impl.startswith("HARNESS-CRASH")]
     if crashes:
         log("harness crash: " + crashes[0].impl[:1500] + "\n  on " + crashes[0].case.line[:300])
         return 2
 
-    eq = prop.canon_equal or (lambda c, a, b: a == b)
-    violations, known_seen, diffs, unclaimed = [], {}, [], []
-    for o in outs:
-        in_known = None
-        if o.oracle is not None:
-            in_known = match_known(pid, o.oracle[0], known)
-            if in_known is None:
-                violations.append(o)
-            else:
-                known_seen.setdefault(in_known["id"], []).append(o)
-        if drv_ok and not eq(o.case, o.impl, o.model):
-            if in_known is not None and not prop.known_diffs_binding:
-                continue               # inside an open finding only the oracle speaks (the model states the
-                                       # intended behaviour there); a model that mirrors the code stays binding
-            (diffs if (o.case.claimed or prop.unclaimed_diffs_binding) else unclaimed).append(o)
+    violations, known_seen, diffs, unclaimed = classify(outs)
     corr_ok = drv_ok and not diffs
 
     def case_json(o: Outcome) -> dict:
@@ -591,6 +633,7 @@ def run_check(modname: str, tier: str, seed: int, replay: Optional[str] = None) 
             "exhaustive": bool(tier == "thorough" and prop.enumerate_thorough is not None),
             "exhaustive_note": prop.exhaustive_note,
             "generated_tables": gen_msg, "leanchecker": leanchecker,
+            "source_fingerprint": dict(fp, changed=fp["changed"][:40], escalation=escalation),
             "explanation": prop.level_text,
         },
         "assumptions": prop.assumptions,
